@@ -411,6 +411,9 @@ type c17Chunk struct {
 	Hex   string `json:"hex"`
 	Note  string `json:"note,omitempty"`
 	Pause int    `json:"pause_ms,omitempty"`
+	// Tok/Script: the chunk is a well-formed request carrying this token, and the backend answers it as scripted
+	Tok    string             `json:"token,omitempty"`
+	Script []fakecass.Outcome `json:"script,omitempty"`
 }
 
 type c17Client struct {
@@ -517,6 +520,9 @@ func c17ClientCheck(c c17Client) *evid.Fail {
 	var notes []string
 	for _, ch := range c.Chunks {
 		b, _ := hex.DecodeString(ch.Hex)
+		if ch.Tok != "" {
+			v.cl.ScriptForced(ch.Tok, ch.Script)
+		}
 		_ = cl.Send(b) // the proxy may already have closed the connection
 		notes = append(notes, ch.Note)
 		if ch.Pause > 0 {
@@ -641,6 +647,7 @@ func c17GenClient(rt *rapid.T) c17Client {
 		opts := &message.QueryOptions{Consistency: primitive.ConsistencyLevelOne}
 		var f *wire.Frame
 		note := ""
+		ctok, cscript := "", []fakecass.Outcome(nil)
 		switch k := rapid.IntRange(0, 15).Draw(rt, "hostilekind"); k {
 		case 0: // hostile query text
 			h := hostile(rt, "qtext")
@@ -733,6 +740,24 @@ func c17GenClient(rt *rapid.T) c17Client {
 				h = h[:100]
 			}
 			f, note = frameOf(&message.Query{Query: "INSERT INTO ks1.t (k) VALUES (:a)", Options: &message.QueryOptions{Consistency: primitive.ConsistencyLevelOne, NamedValues: map[string]*primitive.Value{h: primitive.NewValue([]byte("v"))}}}, nil), fmt.Sprintf("QUERY with value name %.15q", h)
+		case 10: // prepared ids of odd lengths in a BATCH/EXECUTE that the backend then fails: the proxy has to decide about a retry
+			l := rapid.SampledFrom([]int{1, 3, 15, 17, 32}).Draw(rt, "oddidlen")
+			ctok = nextToken()
+			id := bytes.Repeat([]byte{0xCD}, l)
+			ins := &message.BatchChild{Query: "INSERT INTO ks1.t (k) VALUES ('" + ctok + "')"}
+			if rapid.Bool().Draw(rt, "oddidexec") {
+				f = frameOf(&message.Execute{QueryId: id, ResultMetadataId: []byte{1}, Options: &message.QueryOptions{Consistency: primitive.ConsistencyLevelOne, PositionalValues: []*primitive.Value{primitive.NewValue([]byte(ctok))}}}, nil)
+				note = fmt.Sprintf("EXECUTE with a %d-byte id", l)
+			} else {
+				ch := []*message.BatchChild{ins, {Id: id}}
+				if rapid.Bool().Draw(rt, "oddidfirst") {
+					ch[0], ch[1] = ch[1], ch[0]
+				}
+				f = frameOf(&message.Batch{Consistency: primitive.ConsistencyLevelOne, Children: ch}, nil)
+				note = fmt.Sprintf("BATCH with a prepared child whose id has %d bytes", l)
+			}
+			cscript = []fakecass.Outcome{{Kind: rapid.SampledFrom([]string{"server_error", "write_timeout", "overloaded", "truncate", "read_failure", "write_failure", "drop", "unavailable"}).Draw(rt, "oddidoutcome"), WriteType: "BATCH_LOG"}}
+			note += ", which the backend answers with " + cscript[0].Kind
 		default: // a valid frame whose header gets mutated below
 			msg := []message.Message{&message.Options{}, &message.Query{Query: "SELECT * FROM system.peers", Options: opts}, &message.Startup{Options: map[string]string{"CQL_VERSION": "3.0.0"}},
 				&message.Prepare{Query: "SELECT * FROM ks1.t"}, &message.Register{EventTypes: []primitive.EventType{primitive.EventTypeSchemaChange}}, &message.AuthResponse{Token: []byte("t")}}[rapid.IntRange(0, 5).Draw(rt, "validmsg")]
@@ -771,7 +796,7 @@ func c17GenClient(rt *rapid.T) c17Client {
 			raw[0] |= 0x80
 			note += " with the response direction bit"
 		}
-		c.Chunks = append(c.Chunks, c17Chunk{Hex: hex.EncodeToString(raw), Note: note, Pause: rapid.SampledFrom([]int{0, 0, 0, 2}).Draw(rt, "pause")})
+		c.Chunks = append(c.Chunks, c17Chunk{Hex: hex.EncodeToString(raw), Note: note, Pause: rapid.SampledFrom([]int{0, 0, 0, 2}).Draw(rt, "pause"), Tok: ctok, Script: cscript})
 	}
 	if c.Startup != "-" && rapid.IntRange(0, 69).Draw(rt, "flood") == 0 {
 		c.Flood = rapid.IntRange(1400, 2600).Draw(rt, "floodn")
